@@ -15,8 +15,26 @@ from vlib.run import Part, h, sig_matches
 ATTR_NAMES = ["class", "id", "style", "lang", "title", "data-x", "colspan",
               "rowspan", "align", "colSpan", "Data-Y", "ID2", "xml:Lang"]
 ATTR_VALUES = ["a", "b1", "x-y", "k_2", "9", "foo.bar", "A~z", "2"]
-SPECIAL_TAGS = {"pre", "nowiki", "section", "noinclude", "includeonly",
-                "onlyinclude"}
+SPECIAL_TAGS = {"pre", "nowiki", "section"}
+
+
+def permitted(table, child, parent):
+    """May element `child` sit directly inside element `parent`?  Read off the
+    allowed-tag table itself (its category words), not off the sets the
+    parser derives from it: an explicit parent, or a flow / phrasing child in
+    a parent whose content model takes that category ('*' takes both, flow
+    content includes phrasing content)."""
+    c, p = table.get(child, {}), table.get(parent, {})
+    cp, pc = c.get("parents", []), p.get("content", [])
+    if parent in cp:
+        return True
+    if ("flow" in cp or "*" in cp) and ("flow" in pc or "*" in pc):
+        return True
+    if ("phrasing" in cp or "*" in cp) and (
+            "phrasing" in pc or "flow" in pc or "*" in pc):
+        return True
+    return False
+
 
 # inline catalogue: (label, text).  Never starts with a table / list marker or
 # blank, never contains a bare | or !! outside a nested construct.
@@ -449,13 +467,13 @@ def shard(idx, nshards, seed, quick, n_random, known):
         handle(r, text, ["table", spec], table_nontrivial(spec),
                table_classes(spec) + ["gen:enum"], {"part": "table", "spec": spec})
     tags = paired_tags(ctx)
-    perm = ctx.html_permitted_parents
+    table = ctx.allowed_html_tags
     labels = [l for l, _ in CONTENT]
     for ti, tag in enumerate(tags):
         if ti % nshards != idx:
             continue
         inners = [None] + [t for t in ("b", "span", "i", "sup")
-                           if tag in perm.get(t, set()) and t != tag]
+                           if permitted(table, t, tag) and t != tag]
         # inline elements inside the written content must be permitted
         # children of the outer element (otherwise the parser auto-closes the
         # outer one on purpose: the permitted-parent mechanism)
@@ -464,7 +482,7 @@ def shard(idx, nshards, seed, quick, n_random, known):
                                     [["id", "x-y"], ["lang", "fi"],
                                      ["data-x", "foo.bar"]])):
             for ci, content in enumerate(labels):
-                if any(tag not in perm.get(t, set())
+                if any(not permitted(table, t, tag)
                        for t in inner_of.get(content, [])):
                     part.excluded["inner element not permitted in outer"] += 1
                     continue
